@@ -76,7 +76,10 @@ CLAIMED["C09"] = {
             "window (inferred_is_vote); create_db routes to the GFF importer iff force_gff or fmt = gff3, to the GTF "
             "importer iff fmt = gtf and not force_gff, and fails otherwise (routing); a file whose window lines are "
             "all written in one dialect is voted exactly that dialect and routed accordingly "
-            "(consistent_file_dialect, consistent_file_fmt). Correspondence + oracle: infer_dialect on rendered "
+            "(consistent_file_dialect, consistent_file_fmt); the dialect a database reports - in the session and after every "
+            "reopening - is the dialect of the input it was created from, whatever is imported later with whatever "
+            "configuration, and update keeps choosing the importer by the creation format (history_dialect, "
+            "history_update_branch: FeatureDB reads the first meta row, every update appends one). Correspondence + oracle: infer_dialect on rendered "
             "specs, _choose_dialect on two-value mixtures with weights 0-5 (all ties), DataIterator.dialect for files "
             "and every checklines, supplied dialect verbatim, FeatureDB.dialect after import and reopen, GFF3/GTF "
             "routing.",
@@ -115,7 +118,11 @@ CLAIMED["C04"] = {
             "listed attribute; ':field:' specs give the column; a callable's truthy value is used as is, "
             "'autoincrement:X' gives X_n, a falsy value falls through; dict entries per featuretype, a missing entry and "
             "'nothing applies' give <featuretype>_<n> with n counting 1,2,... per featuretype in input order "
-            "(default_numbering); a listed attribute with several values is rejected with ValueError, never truncated; "
+            "(default_numbering); a listed attribute with several values is rejected with ValueError, never truncated - also at line level when the "
+            "values come from REPEATING the key (ID=a;ID=b): both parsers, inferring and with a supplied dialect whatever its "
+            "repeated-keys flag, collect the values of every occurrence in order, so the id handler rejects the line "
+            "wherever it sits relative to the inspection window (repeated_id_line_rejected, lineSpec_multi_id_provided / "
+            "_inferred); "
             "every table operation of both importers keeps ids pairwise distinct (populateGff_nodup, populateGtf_nodup); "
             "db[key] returns exactly the row stored under key and an absent key raises FeatureNotFoundError. "
             "Correspondence end-to-end for every id_spec form (default, string, list, ':field:', callable zoo, dict) "
@@ -379,7 +386,8 @@ CLAIMED["C14"] = {
             "start with '#'; nothing at or after the FASTA start is a feature or directive; and the list create_db "
             "stores and a reopened FeatureDB reads is that same list for every position of every directive relative to "
             "the inspection window and every checklines (db_directives, over an explicit shared-list-object model; "
-            "the pre-repair code is characterised exactly and refuted by a decide witness = defect D1, repaired). "
+            "the pre-repair code is characterised exactly and refuted by a decide witness = defect D1, repaired). The stored directives survive any history of update / delete / add_relation / "
+            "reopen steps unchanged (directives_survive, directives_survive_file). "
             "Correspondence and oracle: interleavings of directive / comment / blank / feature lines with 0-14 features "
             "before each directive, with and without a FASTA tail, path and from_string input, varied checklines; "
             "DataIterator.directives, db.directives after import and after reopening.",
